@@ -15,7 +15,7 @@ BUILTINS = {'len', 'abs', 'min', 'max', 'range', 'slice', 'isinstance', 'int', '
             'sum', 'set', 'dict', 'frozenset', 'id', 'type', 'hash', 'getattr', 'repr', 'print', 'zip_longest', 'chain'}
 EXC_NAMES = {'RuntimeError', 'KeyError', 'IndexError', 'ValueError', 'TypeError', 'NotImplementedError',
              'StopIteration', 'AttributeError', 'Exception', 'ZeroDivisionError', 'LookupError'}
-SPECFNS = {'ufd', 'holds', 'ufe', 'ub', 'kind_is', 'np_result_type', 'W', 'frozen', 'same_array', 'dtype_class', 'implies', 'iff', 'forall', 'exists', 'forall_in', 'exists_in', 'old', 'cond', 's_start', 's_stop',
+SPECFNS = {'ufi', 'ube', 'ufd', 'holds', 'ufe', 'ub', 'kind_is', 'np_result_type', 'W', 'frozen', 'same_array', 'dtype_class', 'implies', 'iff', 'forall', 'exists', 'forall_in', 'exists_in', 'old', 'cond', 's_start', 's_stop',
            's_step', 'nth', 'in_slice', 'length', 'at', 'is_none', 'some', 'slice_len_le', 'true', 'false',
            'at_or', 'R_len', 'sum_to'}
 
@@ -397,6 +397,11 @@ class ModuleEnv:
             return VList(0, None, [])
         if name == 'tuple' and len(args) == 1 and isinstance(args[0], VTuple):
             return args[0]
+        if name == 'getattr' and len(args) >= 2 and isinstance(args[1], VConst) and isinstance(args[1].py, str):
+            fake = ast.Attribute(value=node.args[0], attr=args[1].py, ctx=ast.Load())
+            ast.copy_location(fake, node)
+            ast.fix_missing_locations(fake)
+            return eng.ev(fake, st)
         if name == 'hasattr':
             if args and isinstance(args[0], VU):      # opaque object: may or may not have the attribute (both explored, no taint)
                 return VBool(z3.Bool(f'hasattr@L{node.lineno}c{node.col_offset}'))
@@ -681,6 +686,12 @@ class ModuleEnv:
         vals = [eng.ev(x, st) for x in a]
         if name == 'is_none':
             return VBool(eng.identical(vals[0], VNone(), st))
+        if name in ('ufi', 'ube'):      # uninterpreted functions from opaque elements to Int / Bool
+            from .sorts import ELEM
+            xs = [coerce(v.val if isinstance(v, VOpt) else v, 'elem').t for v in vals[1:]]
+            rng = z3.IntSort() if name == 'ufi' else z3.BoolSort()
+            f = z3.Function(name + '_' + vals[0].py, *([ELEM] * len(xs) + [rng]))
+            return VInt(f(*xs)) if name == 'ufi' else VBool(f(*xs))
         if name == 'ufe':       # ufe('name', e1, e2, ...): uninterpreted function over opaque elements, returning an element
             from .sorts import ELEM
             fname = vals[0].py
